@@ -107,16 +107,18 @@ def skipAttrs : List String :=
 inductive FullErr where
   | base (e : LoadErr)
   | shape (what : String)           -- an `assert …shape == …` of `_load_data` fails (AssertionError)
-  | scalarAttr (file : String)      -- `arr.shape[0]` on a 0-d `spike_*.npy`: IndexError, NOT caught by
-                                    -- the `except (IOError, AssertionError)` of model.py:534
   | curatedWithoutTemplates         -- no template file and clusters ≠ templates: `self.sparse_templates.cols`
                                     -- on `None` (model.py:418-419): AttributeError
 deriving Repr, DecidableEq
 
 /-- `_load_spike_attributes` (model.py:520-538): every `spike_*.npy` except the reserved names, read
 fully (scrubbed, squeezed); kept when its first dimension is the number of spikes, skipped
-otherwise.  A file that squeezes to a 0-d array (one stored value) makes the real loader fail with
-IndexError. -/
+otherwise.  A file that squeezes to a 0-d array (one stored value, shapes `()`, `(1,)`, `(1,1)`) has no first
+dimension equal to the number of spikes and is skipped like every other attribute of the wrong length: this is the
+STATEMENT ("attribute arrays of matching length") and the repaired loader (`assert arr.ndim >= 1 and …`,
+/tmp/fx/c04/scalar_spike_attribute_skipped.patch).  The code at /repo HEAD evaluates `arr.shape[0]` on the 0-d array:
+IndexError, not caught by the `except (IOError, AssertionError)` of model.py:534, the whole load fails
+(pre-finding PF-C04c, corpus/C04/pf_c04d_*). -/
 def loadSpikeAttributes (ns : Nat) : Dir → Except FullErr (List (String × Arr))
   | [] => pure []
   | (f, a) :: rest =>
@@ -126,7 +128,7 @@ def loadSpikeAttributes (ns : Nat) : Dir → Except FullErr (List (String × Arr
       if n ∈ skipAttrs then loadSpikeAttributes ns rest
       else
         match (squeeze (scrub a)).shape with
-        | [] => throw (.scalarAttr f)
+        | [] => loadSpikeAttributes ns rest       -- 0-d after the squeeze: no first dimension to match (see docstring)
         | k :: _ =>
           if k = ns then do
             let r ← loadSpikeAttributes ns rest
